@@ -6,7 +6,7 @@ import itertools
 
 from .. import automata as A
 from .. import envs, blocks, e1, impl, linelang, refmodel
-from ..chartgen import FORMAT_TRAPS, RAW, UNICODE_TRAPS, mk
+from ..chartgen import COMMENT_TRAPS, FORMAT_TRAPS, RAW, UNICODE_TRAPS, mk
 from ..linelang import BL
 
 ID = "C09"
@@ -256,6 +256,24 @@ def _orders(ctx):
             line = '7 = E "%s"' % t
             check_line(ctx, _order(), line, "special character(s) %s" % ascii(sp))
             check_e2e(ctx, [pool[0], line, pool[2]], "special character(s) %s" % ascii(sp))
+    # the same line text parsed EARLIER in this process in a section of another kind: a quoted one-word event is a
+    # track event in an instrument section and a text event in [Events]; what a line meant in the chart before is
+    # as irrelevant as what it means in another section of the same chart
+    for w in ('"phrase_start"', '"x"', '"lyric"', '"section"', '"é"'):
+        for t in (7, 768):
+            line = "%d = E %s" % (t, w)
+            earlier = mk(res=960, sync=["0 = TS 4", "0 = B 1000000000"], events=['1 = E "section s"'], tracks={"ExpertSingle": ["0 = N 0 0", line, "999 = E after"]})
+            impl.model_outcome(earlier, "file", None, (), "model")
+            check_e2e(ctx, [pool[0], line, pool[2]], "line %r parsed in an instrument section of the chart before" % line)
+            check_e2e(ctx, [line], "line %r parsed in an instrument section of an earlier chart" % line)
+    # text that looks like the start of a remark in other formats is part of the value
+    for ct in COMMENT_TRAPS:
+        if '"' in ct:
+            continue  # inner quotes in a text event are the grey zone of DESIGN.md 3.4
+        for tmpl in ("lyric %s", "section %s", "%s", "lyric a %s", "x %s"):
+            line = '7 = E "%s"' % (tmpl % ct)
+            check_line(ctx, _order(), line, "remark-like text %r" % ct)
+            check_e2e(ctx, [pool[0], line, pool[2]], "remark-like text %r" % ct)
     # the keywords are 'lyric ' and 'section ' exactly: any other letter case (or a letter that only case-folds to
     # them) is ordinary text, and so is the marker 'e' for 'E'
     for t in ("Lyric x", "LYRIC x", "lYRIC x", "Section x", "SECTION x", "sEcTiOn x", "\u017fection x", "lyr\u0131c x", "LYR\u0130C x", "Lyric", "SECTION", "Lyric  two", "lyric X", "section X Y"):
